@@ -155,3 +155,107 @@ for _prop, _rid in (("C03", "B6|"), ("C16", "W6|")):
     add(_prop,
         Mutant("%s the dependency sort starts from the whole input on one stack (seeded C16-w6B)" % _rid[:2],
                [(EC, _TS_OLD_HEAD, _TS_NEW_HEAD), (EC, _TS_OLD_DRIVER, "        iterate(list(list_of_objects))\n")], "stack seeded with many roots"))
+
+# ---- rules added after the seventh seed wave
+PO = "spydrnet/ir/port.py"
+HW = "spydrnet/util/get_hwires.py"
+add("C02",
+    Mutant("M2 the outer pin is dropped from the instance only when it was connected (seeded C02-w7C)",
+           (PO, """                if wire:
+                    wire.disconnect_pin(outer_pin)
+                del reference._pins[pin]""", """                if wire:
+                    wire.disconnect_pin(outer_pin)
+                    del reference._pins[pin]"""), "conditional delete"))
+add("C13",
+    Mutant("Q2 a regular expression that does not match is tried again as a wildcard (seeded C13-w7A)",
+           (PT, """    elif is_case:
+        return fnmatch.fnmatchcase(value, pattern.replace("[", "[[]"))
+    else:
+        return fnmatch.fnmatchcase(value.lower(), pattern.replace("[", "[[]").lower())""", """    if is_case:
+        return fnmatch.fnmatchcase(value, pattern.replace("[", "[[]"))
+    return fnmatch.fnmatchcase(value.lower(), pattern.replace("[", "[[]").lower())"""), "regex falls through to glob"))
+add("C11",
+    Mutant("H6 the bus offset is applied twice in the wire name map (seeded C11-w7B)",
+           (HW, "                    for wire_index, wire in enumerate(cable.wires):", "                    for wire_index, wire in enumerate(cable.wires, cable.lower_index):"), "bus offset twice"))
+add("C03",
+    Mutant("B4 the member index counts connected pins only (seeded C03-w7A)",
+           (EC, """            for x in range(len(port_ref.pins)):
+                # print(self.test)
+                if port_ref.pins[x].wire is None:
+                    # self.test += 1
+                    # self._lisp_decrement_()
+                    # print("test")
+                    continue
+                # if cable_name == port_ref.inner_pins[x].wire.cable["EDIF.identifier"]:
+                if port_ref.pins[x] == pin:
+                    break
+""", """            connected = [p for p in port_ref.pins if p.wire is not None]
+            x = connected.index(pin)
+"""), "member index in a filtered list"))
+
+HC = "spydrnet/util/get_hcables.py"
+add("C12",
+    Mutant("H5b one copy of the closure goes on from the wire it found for every selection (seeded C12-w7A; the defect repaired in 130375f)",
+           (HC, """                if selection is Selection.ALL:
+                    search_stack += (
+                        x for x in _get_hpins_from_hwire(hwire_outside) if x != hpin
+                    )""", """                search_stack += (
+                    x for x in _get_hpins_from_hwire(hwire_outside) if x != hpin
+                )"""), "H5b|"),
+    Mutant("twin: the guard as an early continue",
+           (HC, """                if selection is Selection.ALL:
+                    search_stack += (
+                        x for x in _get_hpins_from_hwire(hwire_outside) if x != hpin
+                    )""", """                if selection is not Selection.ALL:
+                    continue
+                search_stack += (
+                    x for x in _get_hpins_from_hwire(hwire_outside) if x != hpin
+                )"""), None))
+
+VPARSE = "spydrnet/parsers/verilog/parser.py"
+BPARSE = "spydrnet/parsers/eblif/eblif_parser.py"
+add("C04",
+    Mutant("B8' the value of a bare attribute key is the previous key's (seeded C04-w7B)",
+           (VPARSE, """                    value += token
+                    token = self.next_token()
+            else:
+                value = None
+            properties_dict[key] = value""", """                    value += token
+                    token = self.next_token()
+            properties_dict[key] = value"""), "B8'|"),
+    Mutant("twin: the value reset at the top of every iteration",
+           (VPARSE, """            key = token.strip()
+            token = self.next_token()
+            assert token in [vt.EQUAL, vt.STAR, vt.COMMA]""", """            key = token.strip()
+            value = None
+            token = self.next_token()
+            assert token in [vt.EQUAL, vt.STAR, vt.COMMA]"""), None))
+
+add("C18",
+    Mutant("B11 every port that already exists becomes INOUT (seeded C18-w7A)",
+           (BPARSE, """            if port.direction in {
+                sdn.IN,
+                sdn.INOUT,
+            }:  # it's an input port and now an output, so it's inout""", """            if port:  # it's an input port and now an output, so it's inout"""), "B11|"),
+    Mutant("twin: the direction test held in a local",
+           (BPARSE, """            if port.direction in {
+                sdn.IN,
+                sdn.INOUT,
+            }:  # it's an input port and now an output, so it's inout""", """            was_input = port.direction in {sdn.IN, sdn.INOUT}
+            if was_input:"""), None))
+
+add("C12",
+    Mutant("H5b the helper that lists the pins of a wire leaves the port pins out on a switch (seeded C12-w6B)",
+           (HC, """def _get_hpins_from_hwire(hwire):
+    hcable = hwire.parent
+    hinst = hcable.parent
+    for pin in hwire.item.pins:
+        if isinstance(pin, InnerPin):
+            port = pin.port
+            if port:""", """def _get_hpins_from_hwire(hwire, ports=True):
+    hcable = hwire.parent
+    hinst = hcable.parent
+    for pin in hwire.item.pins:
+        if isinstance(pin, InnerPin):
+            port = pin.port
+            if port and ports:"""), "H5b|"))
